@@ -71,7 +71,7 @@ theorem and_group_from_start (fuel : Nat) (s : VM) (f : FUid) (h : HUid) (i : In
       andDriver fuel f ((newsOf s.r.nextUid (lps.map (·.2))).map fun q => (q.1, q.2 + 1)) lps.length (allAtMatch c) false es s2
         = .ok (Dnf.run { branches := [c], done := false } es) s3 := by
   have hnd : ((hview i).map (·.1)).Nodup := by rw [hroot]; simp
-  obtain ⟨s1, s2, i2, x', hsl, hrun, F2, hown', hv2, hfux, hst2, hn2, hhxf⟩ :=
+  obtain ⟨s1, s2, i2, x', hsl, hrun, F2, hown', hv2, hfux, hst2, hn2, _, hhxf⟩ :=
     fork_segment fuel s f h i x cfg hd fl mu lps H hact hlis hcatch hsz hfork hl hnews hnd hfresh
   obtain ⟨hch, hleaf⟩ := hhxf a0 ha0 hfx0
   -- the member heads
